@@ -105,6 +105,31 @@ claim(
     "DESIGN.md section 5 / C06",
 )
 
+claim(
+    "C09",
+    "model_checking",
+    "C-history",
+    "exhaustive enumeration of save points of a step history on the real samplers; differential oracle original vs reloaded and byte-identical continuation",
+    "For every sampler (Metropolis, Gibbs, PCA, HMC, Ensemble) x configuration (free, bounds, Gibbs limits, T=2.5, scalar/vector/matrix mass, finite-difference gradient, alpha=3) a history of L=12 (quick) / 30 (thorough) "
+    "steps with adaptation intervals shrunk so that width, epsilon and direction updates fall inside it; at EVERY save point k=0..L: save, load, save, load; read-outs (samples, probabilities, lengths, bounds, mode, "
+    "interval, tuning) must be equal, plot calls must succeed whenever they succeed on the original, and with the original's generator state copied in, the continuation by take_step (compared after every step) and "
+    "by advance must be byte-identical to the sampler that was never saved.",
+    "one fixed posterior; generator state copied from the original (the statement's premise); numpy savez/load trusted",
+    "DESIGN.md section 5 / C09",
+)
+claim(
+    "C14",
+    "model_checking",
+    "C-history + A-choice-tree (scripted permutation)",
+    "exhaustive enumeration of (chain length, burn, thin) and of interval requests on real chains, with numpy's permutation scripted over all outcomes",
+    "Chains of every length N=1..12 (ensemble 1..4 iterations) are produced by real stepping (and again through save/load) for each sampler and d in {1,2,3}; for every burn in 0..N+1 and thin in 1..N+1 "
+    "get_parameter/get_sample/get_probabilities must equal rows burn::thin of the full chain, with first dimension = number retained (0 and 1 included) and row-aligned; get_marginal must be built from exactly "
+    "those values (estimator constructors intercepted); get_interval for 5 fractions x samples in {None,1..N+2} x every outcome of the scripted permutation: 2-D rows with their own probabilities from the top fraction, "
+    "all of it when no count is given, at most the count otherwise.",
+    "chain lengths <= 12; both the documented thin override and the user's thin are accepted when a sample count is requested; cut index floor(n(1-f)) exact or in floating point",
+    "DESIGN.md section 5 / C14",
+)
+
 ALL = [f"C{i:02d}" for i in range(1, 21)]
 PENDING_REASON = "check under construction in this session (design in DESIGN.md section 5); not yet claimed"
 
